@@ -1420,6 +1420,16 @@ func checkFailedStartReleasesConnection(p *core.Program, r *core.Report) {
 			st, ok := i.(*ssa.Store)
 			return ok && core.IsField(st.Addr, "pkg/cla/tcpclv4", "Client", "messageSwitch") && core.IsNilConst(st.Val) && reachesFrom(blk, st)
 		})
+		if !released {
+			// with the results kept in memory cells (a defer in Start) the "return" is the store into the result cell,
+			// which may precede the release inside the same straight-line block
+			if _, isRet := rv.At.(*ssa.Return); !isRet {
+				released, _ = core.MustPassAfter(rv.At, func(i ssa.Instruction) bool {
+					st, ok := i.(*ssa.Store)
+					return ok && core.IsField(st.Addr, "pkg/cla/tcpclv4", "Client", "messageSwitch") && core.IsNilConst(st.Val)
+				}, core.IsReturn)
+			}
+		}
 		r.Check(released, "restart/"+fname(start)+"/failed-attempt-released", "a Start that gives up after the dial (establishment timed out, retry requested) resets messageSwitch to nil, so that the retry dials again", p.Pos(rv.At.Pos()), "", "the timed-out attempt leaves messageSwitch set: every retry skips the dial and runs a handshake on the dead connection - the adapter, a permanent one included, never becomes active again")
 	}
 	r.Min("timed-out returns of tcpclv4.Client.Start", 1)
